@@ -306,7 +306,8 @@ Definition jsc_pop : J unit := jmod (fun st => set_scope (tl (j_scope st)) (j_n 
 Definition jsc_genname (v : bstr) : J bstr :=
   st <~ jget ;;
   let n := j_n st + 1 in
-  jmod (set_scope (j_scope st) n) ;;; jret (v ++ dec_of_N n).
+  (* REPAIR C04-7: an underscore between the name and the counter ($x1 as variable 1 and $x as variable 11 were both x11) *)
+  jmod (set_scope (j_scope st) n) ;;; jret (v ++ t_us ++ dec_of_N n).
 Definition jsc_bind (v g : bstr) : J unit :=
   st <~ jget ;;
   match j_scope st with
@@ -326,13 +327,13 @@ Definition lookup_var (v : bstr) : J bstr := st <~ jget ;; jret (jsc_lookup (j_s
 Definition jsc_push_for_range (v : bstr) : J (bstr * bstr * bstr * bstr * bstr) :=
   st <~ jget ;;
   let n := j_n st + 1 in
-  let d := dec_of_N n in
+  let d := t_us ++ dec_of_N n in
   let f := aset (aset (aset (aset [] v (v ++ d)) jk_var v) jk_limit (v ++ t_limit ++ d)) jk_index (v ++ t_index ++ d) in
   jmod (set_scope (f :: j_scope st) n) ;;; jret (v ++ d, v ++ t_init ++ d, v ++ t_step ++ d, v ++ t_limit ++ d, v ++ t_index ++ d).
 Definition jsc_push_for_each (v : bstr) : J (bstr * bstr * bstr * bstr) :=
   st <~ jget ;;
   let n := j_n st + 1 in
-  let d := dec_of_N n in
+  let d := t_us ++ dec_of_N n in
   let f := aset (aset (aset (aset [] v (v ++ d)) jk_var v) jk_limit (v ++ t_limit ++ d)) jk_index (v ++ t_index ++ d) in
   jmod (set_scope (f :: j_scope st) n) ;;; jret (v ++ d, v ++ t_list ++ d, v ++ t_limit ++ d, v ++ t_index ++ d).
 (* scope.loop: index and limit of the innermost loop whose variable is v *)
